@@ -176,6 +176,7 @@ fn fmt_map(v: &[(u8, i64)]) -> String {
 
 pub const ERR_ADD: &str = "unable to perform operation '+' with 'String' and 'Number'";
 pub const ERR_INDEX: &str = "index out of bounds - index: 7, size: 1";
+pub const ERR_UNHASHABLE: &str = "only hashable values can be used as value keys";
 pub const ERR_ARGC: &str = "insufficient arguments (0, expected 1)";
 
 impl<'a> Model<'a> {
@@ -601,6 +602,32 @@ impl<'a> Model<'a> {
             Stmt::Dump(n) => self.dump(*n, f),
             Stmt::Expr(e) => {
                 self.eval(e, f)?;
+            }
+            Stmt::MapIndexBadKey => {
+                // index 0 must exist, otherwise the index itself is rejected first
+                let class = if f.m0.is_empty() { "invalid index (0)" } else { ERR_UNHASHABLE };
+                let mut a = self.throw(Thrown::Runtime(class.into()), 0, "MapIndexBadKey");
+                if let Abrupt::Throw(t) = &mut a {
+                    t.crossed_opaque = true;
+                }
+                return Err(a);
+            }
+            Stmt::LoopTryBreak(v, id, pre, val, handler) => {
+                let r = match self.exec_block(pre, f) {
+                    Ok(_) => self.eval(val, f),
+                    Err(a) => Err(a),
+                };
+                match r {
+                    Ok(x) => f.i[*v as usize] = x,
+                    Err(Abrupt::Throw(info)) => {
+                        self.out.caught.push((*id, info.thrown.class()));
+                        self.out.sig.push("caught:break-value-in-try".into());
+                        self.exec_block(handler, f)?;
+                        f.i[*v as usize] = -7;
+                    }
+                    Err(other) => return Err(other),
+                }
+                self.dump(1000 + *id, f);
             }
             Stmt::AddAssign(v, e) => {
                 let x = self.eval(e, f)?;
